@@ -55,13 +55,13 @@ type KnownFile struct {
 
 // Collector accumulates obligations for one property run.
 type Collector struct {
-	Property string
-	Obls     []*Obligation
-	Notes    []string
-	Counters map[string]int
-	Floors   map[string][2]int // rule -> [found, floor]
-	Fatal    []string          // exit-2 conditions (anchor unresolved, control silent, floor)
-	ExpectedControls map[string]bool // rule -> must have a violated control obligation
+	Property         string
+	Obls             []*Obligation
+	Notes            []string
+	Counters         map[string]int
+	Floors           map[string][2]int // rule -> [found, floor]
+	Fatal            []string          // exit-2 conditions (anchor unresolved, control silent, floor)
+	ExpectedControls map[string]bool   // rule -> must have a violated control obligation
 	bulk             map[string][2]int // rule -> [discharged, out-of-scope] counted without individual records
 }
 
@@ -86,7 +86,9 @@ func (c *Collector) Add(o *Obligation) {
 	c.Obls = append(c.Obls, o)
 }
 
-func (c *Collector) Note(format string, a ...any) { c.Notes = append(c.Notes, fmt.Sprintf(format, a...)) }
+func (c *Collector) Note(format string, a ...any) {
+	c.Notes = append(c.Notes, fmt.Sprintf(format, a...))
+}
 
 func (c *Collector) Fatalf(format string, a ...any) {
 	c.Fatal = append(c.Fatal, fmt.Sprintf(format, a...))
@@ -215,21 +217,21 @@ func (c *Collector) Finish(verifDir, tier string, seed int, wall time.Duration, 
 		oos += s.OutOfScope
 	}
 	cov := map[string]any{
-		"explanation":      explanation,
-		"obligations":      total,
-		"discharged":       disch,
-		"out_of_scope":     oos,
-		"violated_total":   nviol + nknown,
-		"known_findings":   nknown,
-		"per_rule":         stats,
-		"instance_floors":  c.Floors,
-		"controls_fired":   keys(controlFired),
-		"samples":          samples,
-		"notes":            c.Notes,
-		"trusted_base":     trusted,
-		"checker_cmd":      "bin/dcmcheck -prop " + c.Property + " -tier " + tier,
-		"exhaustive":       true,
-		"fatal":            c.Fatal,
+		"explanation":     explanation,
+		"obligations":     total,
+		"discharged":      disch,
+		"out_of_scope":    oos,
+		"violated_total":  nviol + nknown,
+		"known_findings":  nknown,
+		"per_rule":        stats,
+		"instance_floors": c.Floors,
+		"controls_fired":  keys(controlFired),
+		"samples":         samples,
+		"notes":           c.Notes,
+		"trusted_base":    trusted,
+		"checker_cmd":     "bin/dcmcheck -prop " + c.Property + " -tier " + tier,
+		"exhaustive":      true,
+		"fatal":           c.Fatal,
 	}
 	for k, v := range extra {
 		cov[k] = v
